@@ -280,12 +280,16 @@ class Ctx:
             if key in self.feas_cache:
                 t_ok, f_ok = self.feas_cache[key]
             else:
-                if free:
+                if free and getattr(self, "_random_free", None) is not None:
+                    t_ok = self._random_free.random() < 0.5
+                    f_ok = not t_ok
+                elif free:
                     t_ok = f_ok = True
                 else:
                     t_ok = self._feasible(cond)
                     f_ok = self._feasible(z3.Not(cond))
-                self.feas_cache[key] = (t_ok, f_ok)
+                if getattr(self, "_random_free", None) is None:
+                    self.feas_cache[key] = (t_ok, f_ok)
             if t_ok and f_ok:
                 self.worklist.append(self.prefix + [False])
                 d = True
@@ -447,6 +451,9 @@ class Ctx:
                 raise Unsupported(f"loop contract on iteration over {type(it).__name__}")
         fr.locals[idx] = 0
         fr.locals["_n"] = n
+        for gname, gexpr in (getattr(lc, "ghost", None) or {}).items():
+            sub = Frame(fr.module, fr.func, True, fr.locals, fr.depth)
+            fr.locals[gname] = I.eval(ast.parse(gexpr, mode="eval").body, sub)
         self._check_invs(lc, fr, "inv-init")
         self._havoc_loop(lc, st, fr)
         i = self.fresh(idx, "Int")
@@ -602,6 +609,9 @@ class Ctx:
             st, _, _, _ = solve(_flatten(self.pc) + [z3.Not(goal)], 5000, want_model=False)
             if st == "unsat":
                 return PList([simp(za + i * zc) for i in range(n)])
+        for p in self.plugins:
+            if hasattr(p, "range_sym"):
+                return p.range_sym(a, b, c)
         return NotImplemented
 
     def ext_attr_hook(self, I, base, name):
@@ -1140,6 +1150,109 @@ class Ctx:
         v, _ = self.make(fdesc, self.fresh_label(f"{c.name}.{pattern}'"))
         obj.fields[field] = v
 
+    # ------------------------------------------------------------------ solver-aided input sampling
+    INT_POOL = [0, 1, -1, 2, -2, 3, 5, 6, 7, 12, 31, 32, 33, 64, 65, 97, 100, 129, -7, -33, 1000, 9999, 10000,
+                99999, 100000, -999, -1000]
+    REAL_POOL = ["0", "1", "-1", "1/2", "-1/2", "3/2", "-3/2", "2", "-2", "5/2", "3", "-3", "1/10", "-1/10",
+                 "1/4", "1/1000", "-1/1000", "5", "-5", "10", "100", "-100", "999/1000", "-999/1000", "43/10",
+                 "2469/2", "-999999/1000", "17/10", "20", "33", "400"]
+
+    def gen_inputs(self, n, seed):
+        """Inputs satisfying `requires` (and outside the carve-outs), diversified by pinning randomly
+        chosen symbols to pool values while the constraints stay satisfiable."""
+        import random
+
+        rng = random.Random(seed)
+        out = []
+        self.worklist = []
+        tries = 0
+        while len(out) < n and tries < n * 6:
+            tries += 1
+            self.reset_path([])
+            self._random_free = rng
+            try:
+                env = {}
+                for pname, desc in self.contract.params.items():
+                    v, rec = self.make(desc, pname)
+                    env[pname] = v
+                    self.inputs[pname] = rec
+                for nm, (v, _) in self.named.items():
+                    env.setdefault(nm, v)
+                for p in self.plugins:
+                    p.after_inputs(self, env)
+                for text in self.contract.requires:
+                    self.assume(self.eval_clause(text, env))
+                for kf in self.contract.known:
+                    self.assume(b_not(self.eval_clause(kf["when"], env)))
+            except (PathEnd, Unsupported, PyRaise, SourceError):
+                continue
+            finally:
+                self._random_free = None
+            s = z3.Solver()
+            s.set("timeout", 3000)
+            for c in self.pc:
+                s.add(c)
+            if s.check() != z3.sat:
+                continue
+            m = s.model()
+            consts = []
+            _collect_consts(list(self.inputs.values()), consts)
+            # symbolic sequences: pin a length from a pool, then elements
+            seqs = [(c, sort) for c, sort in consts if sort in ("SeqReal", "SeqInt")]
+            consts = [(c, sort) for c, sort in consts if sort not in ("SeqReal", "SeqInt")]
+            for c, sort in seqs:
+                n = rng.choice([0, 1, 2, 3, 4, 5, 6, 7, 9, 11, 12, 13, 17, 18, 24, 25])
+                s.push()
+                s.add(z3.Length(c) == n)
+                if s.check() != z3.sat:
+                    s.pop()
+                    continue
+                m = s.model()
+                for i in range(n):
+                    if sort == "SeqReal":
+                        v = Fraction(rng.choice(self.REAL_POOL)) if rng.random() < 0.7 else Fraction(
+                            round(rng.uniform(-30, 30) * 16), 16)
+                        cand = c[i] == z3.RealVal(v)
+                    else:
+                        cand = c[i] == rng.choice(self.INT_POOL)
+                    s.push()
+                    s.add(cand)
+                    if s.check() == z3.sat:
+                        m = s.model()
+                    else:
+                        s.pop()
+            rng.shuffle(consts)
+            for c, sort in consts:
+                if rng.random() < 0.15:
+                    continue
+                if sort == "Int":
+                    v = rng.choice(self.INT_POOL) if rng.random() < 0.6 else rng.randint(-40, 250)
+                    cand = c == v
+                elif sort == "Real":
+                    if rng.random() < 0.55:
+                        v = Fraction(rng.choice(self.REAL_POOL))
+                    else:
+                        v = Fraction(round(rng.uniform(-30, 30) * 16), 16)
+                    cand = c == z3.RealVal(v)
+                elif sort == "Bool":
+                    cand = c == (rng.random() < 0.5)
+                else:
+                    continue
+                s.push()
+                s.add(cand)
+                if s.check() == z3.sat:
+                    m = s.model()
+                else:
+                    s.pop()
+            md = {}
+            from .solvers import _val
+
+            for d in m.decls():
+                if d.arity() == 0:
+                    md[d.name()] = _val(m[d])
+            out.append(self.concretize(md))
+        return out
+
     # ------------------------------------------------------------------ the run
     def run(self):
         res = self.result
@@ -1437,6 +1550,26 @@ def _slice(pc, goal, hubs=False):
             if vs <= hub:
                 picked.append(c)
     return picked
+
+
+def _collect_consts(recs, acc):
+    for r in recs:
+        if not isinstance(r, tuple):
+            continue
+        k = r[0]
+        if k == "z3":
+            acc.append((r[1], r[2]))
+        elif k in ("list", "tuple"):
+            _collect_consts(r[1], acc)
+        elif k == "dict":
+            for a, b in r[1]:
+                _collect_consts([a, b], acc)
+        elif k == "obj":
+            _collect_consts(list(r[2].values()), acc)
+        elif k == "named":
+            _collect_consts([r[2]], acc)
+        elif k == "seqsym":
+            acc.append((r[1], "Seq" + r[2]))
 
 
 def _alias_clause(text):
